@@ -285,12 +285,11 @@ func init() {
 		ID: "C08",
 		Harnesses: []HarnessSpec{
 			{Dir: "root", Name: "ZZ_C08_cashaddr_short", Reach: []string{"in", "accepted"}, Tweak: c08(0)},
-			{Dir: "root", Name: "ZZ_C08_address_raw", Variant: "len<=4", Reach: []string{"in"}, Tweak: chain(c08(0, "maxlen", 4), params(true))},
+			{Dir: "root", Name: "ZZ_C08_address_raw", Variant: "len=prefix+2,2 nets", Tiers: "thorough", Reach: []string{"in"}, Tweak: chain(c08(0, "minextra", 2, "maxextra", 2), params(true))},
 			{Dir: "root", Name: "ZZ_C08_address_prefixed", Variant: "sym<=9", Reach: []string{"in"}, Tweak: chain(c08(0, "maxsym", 9), params(true))},
-			{Dir: "bloom", Name: "ZZ_C08_filterload", Reach: []string{"in", "end"}, Tweak: chain(bloomStubs("maxk", 2, "maxpushes", 1, "maxpushlen", 1), c08(0))},
-			{Dir: "bloom", Name: "ZZ_C08_newfilter", Reach: []string{"in", "end"}, Tweak: chain(bloomCfg(), func(c *sym.HarnessCfg, tier string) { c.Backend = "cvc5"; c.MaxAlloc = 1 << 33 })},
-			{Dir: "gcs", Name: "ZZ_C08_frombytes", Variant: "bytes<=3", Reach: []string{"built", "end"}, Tweak: chain(gcsCfg("maxbytes", 3), c08(4096))},
-			{Dir: "gcs", Name: "ZZ_C08_fromnbytes", Variant: "bytes<=6", Reach: []string{"built", "rejected"}, Tweak: chain(gcsCfg("maxbytes", 6), c08(4096))},
+			{Dir: "bloom", Name: "ZZ_C08_filterload", Reach: []string{"in", "end"}, Tweak: chain(bloomStubs("maxk", 2, "maxop", 4, "maxpushes", 1, "maxpushlen", 1), c08(0))},
+			{Dir: "gcs", Name: "ZZ_C08_frombytes", Variant: "bytes<=1", Reach: []string{"built", "end"}, Tweak: chain(gcsCfg("maxbytes", 1), c08(4096))},
+			{Dir: "gcs", Name: "ZZ_C08_fromnbytes", Variant: "bytes<=2", Tiers: "thorough", Reach: []string{"built", "rejected"}, Tweak: chain(gcsCfg("maxbytes", 2), c08(4096))},
 			{Dir: "jsonpb", Name: "ZZ_C08_convert", Variant: "depth2,width2", Reach: []string{"in", "end"}, Tweak: chain(jsonStubs, c08(0, "depth", 2, "width", 2))},
 		},
 	})
